@@ -508,8 +508,8 @@ func c05LenSub() *engine.Sub {
 		{[]string{"a", "b", "c", "d", "prod"}, "日本語-long-name.exe"},
 	}
 	return &engine.Sub{
-		Name: "same-delegation-across-argument-lengths",
-		Rule: "one delegation object (in memory, or sealed and decoded once) whose policy has a selector with a negative or open slice bound / a negative index - 7 statements that hold for each of 4 argument sets whose lists and strings have different lengths - serves every sequence of three invocations (64 sequences, ExecutionAllowed and ExecutionAllowedWithArgsHook alternating): every check is allowed, whatever lengths the same parsed selector met before; non-trivial = sequences in which the lengths differ",
+		Name:  "same-delegation-across-argument-lengths",
+		Rule:  "one delegation object (in memory, or sealed and decoded once) whose policy has a selector with a negative or open slice bound / a negative index - 7 statements that hold for each of 4 argument sets whose lists and strings have different lengths - serves every sequence of three invocations (64 sequences, ExecutionAllowed and ExecutionAllowedWithArgsHook alternating): every check is allowed, whatever lengths the same parsed selector met before; non-trivial = sequences in which the lengths differ",
 		Bound: func(string) string { return "7 statements x 64 sequences of 4 argument sets x {in memory, decoded}" },
 		Setup: func(string) error { chainInit(); return nil },
 		Gen: func(tier string, emit func(any) bool) {
